@@ -331,6 +331,13 @@ def run(ctx, rep):
                         continue
                     ids, roots = fl.depends(st.test)
                     attrs = {n.attr for r in roots for n in ast.walk(r) if isinstance(n, ast.Attribute)}
+                    # the test may sit in a helper method of the builder (self.is_anonymous_gate_allowed())
+                    for r in list(roots) + [st.test]:
+                        for c in ast.walk(r):
+                            if isinstance(c, ast.Call) and isinstance(c.func, ast.Attribute) and isinstance(c.func.value, ast.Name) and c.func.value.id == gd.params[0]:
+                                h = builder.methods.get(c.func.attr)
+                                if h is not None:
+                                    attrs |= {n.attr for n in ast.walk(h.node) if isinstance(n, ast.Attribute)}
                     if {"inject_pulses", "autoload_pulses"} <= attrs:
                         ok = True
                 if ok:
